@@ -280,6 +280,18 @@ def threadFlag (u : Nat) : Bool → List Step → Bool
   | en, [] => en
   | en, e :: r => threadFlag u (flag1 u en e) r
 
+/-- which producer thread executes a step (flusher, kmsg and `~Log` steps belong to none) -/
+def owner : Step → Option Nat
+  | .debugLog m => some m.tid
+  | .stmt t _ _ => some t
+  | _ => none
+
+/-- steps of the flusher thread -/
+def isIoStep (e : Step) : Bool :=
+  match e with
+  | .swap | .write1 | .report | .release => true
+  | _ => false
+
 /-- the kmsg records a schedule asks for -/
 def kmsgAsked : List Step → List Msg
   | [] => []
